@@ -61,6 +61,7 @@ Jobs_C01 ==
    S2Q({Call("add", <<"fx", "fx">>, p) : p \in PairsAdd}) \o S2Q({CallAsg("add", <<"fx", "fx">>, p) : p \in PairsAdd})
    \o S2Q({Call("sub", <<"fx", "fx">>, p) : p \in PairsSub}) \o S2Q({CallAsg("sub", <<"fx", "fx">>, p) : p \in PairsSub})
    \o <<RandM("add", <<"fx", "fx">>, NR(4000, 100000), Seed + 5, "related"), RandM("sub", <<"fx", "fx">>, NR(4000, 100000), Seed + 6, "related"),
+        [RandM("add", <<"fx", "fx">>, NR(3000, 100000), Seed + 7, "related") EXCEPT !.asg = 1], [RandM("sub", <<"fx", "fx">>, NR(2000, 50000), Seed + 8, "related") EXCEPT !.asg = 1],
         Rand("add", <<"fx", "fx">>, NR(12000, 400000), Seed), Rand("sub", <<"fx", "fx">>, NR(12000, 400000), Seed + 1),
         [Rand("add", <<"fx", "fx">>, NR(3000, 50000), Seed + 2) EXCEPT !.asg = 1],
         [Rand("sub", <<"fx", "fx">>, NR(3000, 50000), Seed + 3) EXCEPT !.asg = 1]>>
@@ -81,7 +82,9 @@ TypeG(tag) ==
 (* landmark values of an integral type *)
 IntLm(tag) ==
    LET t == TypeG(tag)
-       c == {ZN(4), ZN(10), ZN(65536), P(20), P(30), Z0, Z1, ZN(-1), ZN(2), ZN(-2), ZN(3), ZN(7), ZN(-7), ZN(100), ZN(127), ZN(128), ZN(255), ZN(256), ZN(360), ZN(-360),
+       wrapk == {ZN(205887), ZN(180), ZN(65536), ZN(360), ZN(411774)}
+       wraps == UNION {{(P(64) // q) ++ ZN(d), (P(63) // q) ++ ZN(d), (P(32) // q) ++ ZN(d), (P(31) // q) ++ ZN(d)} : q \in wrapk, d \in {0, 1, 2, 90, 360}}
+       c == wraps \cup {ZN(4), ZN(10), ZN(65536), P(20), P(30), Z0, Z1, ZN(-1), ZN(2), ZN(-2), ZN(3), ZN(7), ZN(-7), ZN(100), ZN(127), ZN(128), ZN(255), ZN(256), ZN(360), ZN(-360),
              TMin(t), TMin(t) ++ Z1, TMax(t), TMax(t) -- Z1, MaxIntegral, MaxIntegral ++ Z1, MaxIntegral -- Z1,
              ZNeg(MaxIntegral), ZNeg(MaxIntegral) -- Z1, P(15), P(16), P(31), P(32), P(32) -- Z1, P(47), P(62), P(63), P(63) ++ Z1,
              P(63) -- Z1, ZNeg(P(31)), ZNeg(P(47)), P(64) -- Z1, P(64) -- ZN(2)}
@@ -93,7 +96,7 @@ Jobs_C02 ==
          S2Q({Call("mul", <<"fx", IntTagsG[i]>>, <<a, n>>) : a \in FxForScalar, n \in IntLm(IntTagsG[i])})
          \o S2Q({Call("mul", <<IntTagsG[i], "fx">>, <<n, a>>) : a \in FxForScalar, n \in IntLm(IntTagsG[i])})
          \o <<Rand("mul", <<"fx", IntTagsG[i]>>, NR(1500, 40000), Seed + 10 + i), Rand("mul", <<IntTagsG[i], "fx">>, NR(1500, 40000), Seed + 20 + i)>>])
-   \o <<RandM("mul", <<"fx", "fx">>, NR(4000, 100000), Seed + 2, "related"), RandM("mul", <<"fx", "fx">>, NR(6000, 300000), Seed + 3, "prodedge"), Rand("mul", <<"fx", "fx">>, NR(6000, 300000), Seed + 4), RandB("mul", <<"fx", "fx">>, NR(10000, 300000), Seed + 5, 34),
+   \o <<RandM("mul", <<"fx", "fx">>, NR(4000, 100000), Seed + 2, "related"), [RandM("mul", <<"fx", "fx">>, NR(2000, 50000), Seed + 1, "related") EXCEPT !.asg = 1], RandM("mul", <<"fx", "fx">>, NR(6000, 300000), Seed + 3, "prodedge"), Rand("mul", <<"fx", "fx">>, NR(6000, 300000), Seed + 4), RandB("mul", <<"fx", "fx">>, NR(10000, 300000), Seed + 5, 34),
         RandB("mul", <<"fx", "fx">>, NR(5000, 100000), Seed + 6, 48)>>
 
 (* ---- C03: quotients ------------------------------------------------------------------------------ *)
@@ -105,7 +108,7 @@ Jobs_C03 ==
    \o FlatSeq([i \in 1..NT |->
          S2Q({Call("div", <<"fx", IntTagsG[i]>>, <<a, n>>) : a \in FxForScalar, n \in IntLm(IntTagsG[i])})
          \o <<Rand("div", <<"fx", IntTagsG[i]>>, NR(1500, 40000), Seed + 30 + i)>>])
-   \o <<RandM("div", <<"fx", "fx">>, NR(4000, 100000), Seed + 6, "related"), Rand("div", <<"fx", "fx">>, NR(10000, 300000), Seed + 7), RandB("div", <<"fx", "fx">>, NR(10000, 300000), Seed + 8, 47),
+   \o <<RandM("div", <<"fx", "fx">>, NR(4000, 100000), Seed + 6, "related"), [RandM("div", <<"fx", "fx">>, NR(2000, 50000), Seed + 5, "related") EXCEPT !.asg = 1], Rand("div", <<"fx", "fx">>, NR(10000, 300000), Seed + 7), RandB("div", <<"fx", "fx">>, NR(10000, 300000), Seed + 8, 47),
         RandB("div", <<"fx", "fx">>, NR(5000, 100000), Seed + 9, 33)>>
 
 (* ---- C04: integer <-> fixed ---------------------------------------------------------------------- *)
